@@ -14,6 +14,9 @@ Two layers (TASK_ENGINE):
      right after that provider write; the engine object is abandoned, a new engine is started over the surviving storage and
      provider contents, run to quiescence and judged by the Lean monitor op `c07` (= `converged` ∧ `noLoss` ∧ `noDup` ∧, for
      one-sided histories, no '.conflicted' artefact: exactly the property's statement).
+     Families: settled two-sided, settled one-sided, concurrent file conflicts, interleaved one-sided file operations, and creation
+     BURSTS (2-4 new objects, incl. a folder with files, in one event batch on every id-style provider side).
+     An event counts as "handled" in the effect log only when the entry it touched is clean AND its row is really in storage.
 """
 import io
 import os
@@ -103,7 +106,10 @@ class StorageTap:
     def create(self, tag, ser):
         self._before("create", tag, None, ser)
         eid = self.inner.create(tag, ser)
-        self.ctl.eff(self.world.storage_token("C", tag, eid, ser))
+        tok = self.world.storage_token("C", tag, eid, ser)
+        if tok.startswith("SC:"):
+            self.world.live_rows.add(eid)
+        self.ctl.eff(tok)
         return eid
 
     def update(self, tag, ser, eid):
@@ -115,7 +121,10 @@ class StorageTap:
     def delete(self, tag, eid):
         self._before("delete", tag, eid, None)
         r = self.inner.delete(tag, eid)
-        self.ctl.eff(self.world.storage_token("D", tag, eid, None))
+        tok = self.world.storage_token("D", tag, eid, None)
+        if tok.startswith("SD:"):
+            self.world.live_rows.discard(eid)
+        self.ctl.eff(tok)
         return r
 
     def read_all(self, *a, **kw):
@@ -136,6 +145,7 @@ class CWorld(World):
         self.ctl.armed = False
         self.hashmix = hashmix
         self.tempdirs = []
+        self.live_rows = set()          # ids of the entry rows the real storage holds right now
         self._hash_to_tag = ({}, {})
         # engine.py's determinisation does not reach providers/mock.py:533 (`for obj in set(fs_objects())` in a folder rename:
         # identity-hashed objects, order = memory addresses).  A crash run must reproduce the crash-free run exactly, so the
@@ -268,7 +278,7 @@ class CWorld(World):
             def wrapper(event, _orig=orig, _side=side):
                 r = _orig(event)
                 if r == EventFilter.IGNORE and event.new_cursor is not None:
-                    world.ctl.eff("A:%d:%d" % (_side, event.new_cursor + 1))
+                    world.ctl.eff("A:%d:%d:~" % (_side, event.new_cursor + 1))
                 return r
             p._filter_event = wrapper
 
@@ -277,14 +287,27 @@ class CWorld(World):
         cs = super().new_engine()
         world = self
         self.tempdirs.append(cs.smgr.tempdir)
-        pending = []            # events processed whose state effect is still in the dirty set (not yet committed)
+        pending = []            # (side, idx, oid) of processed events whose state effect is not (yet) in storage
         state = cs.state
+        self._state_tag = cs.state._tag
+        self.live_rows = set(self.raw_storage.read_all(cs.state._tag).keys())
 
         def flush():
-            if not state._dirtyset:
-                for tok in pending:
-                    world.ctl.eff(tok)
-                del pending[:]
+            # "handled" = the entry the event touched is not dirty any more AND its row really is in storage (or it needs none:
+            # no entry / trash entry).  An entry that exists only in memory does not count: a crash loses it while the cursor
+            # may already be past its event.
+            for item in list(pending):
+                side, idx, oid = item
+                ent = state.lookup_oid(side, oid) if oid is not None else None
+                if not ent or ent.is_trash:
+                    world.ctl.eff("A:%d:%d:~" % (side, idx))
+                elif ent in state._dirtyset:
+                    continue
+                elif ent.storage_id is not None and ent.storage_id in world.live_rows:
+                    world.ctl.eff("A:%d:%d:%d" % (side, idx, ent.storage_id))
+                else:
+                    continue
+                pending.remove(item)
         orig_commit = state.storage_commit
 
         def commit():
@@ -298,8 +321,7 @@ class CWorld(World):
             def wrapper(event, from_walk=False, _orig=orig, _side=side):
                 r = _orig(event, from_walk=from_walk)
                 if event and not from_walk and getattr(event, "new_cursor", None) is not None:
-                    # "handled" = the event's state effect is committed: nothing it touched is left in the dirty set
-                    pending.append("A:%d:%d" % (_side, event.new_cursor + 1))
+                    pending.append((_side, event.new_cursor + 1, event.oid))
                     flush()
                 return r
             em._process_event = wrapper
@@ -448,7 +470,36 @@ class CRecorder(Recorder):
 # engine's create of the same file, plus a crash right after that create, is the known finding
 # stale-path-create-duplicated-after-crash.
 FILE_KINDS = ["create", "create", "write", "write", "delete"]
-FAMILIES = ("settled", "onesided-settled", "onesided", "conflict")
+FAMILIES = ("settled", "onesided-settled", "onesided", "conflict", "burst")
+ID_SIDES = [(fl, side) for fl in FLAVOURS for side in (0, 1) if not FLAVOURS[fl][side][0]]     # (flavour, side) with an id-style provider
+
+
+def burst(rec, side):
+    """2-4 NEW objects created on one side with no engine step in between, so that their events arrive in ONE batch: a folder with
+    files in it, or several files (in the root or in an existing folder).  On an id-style provider these events carry no path: the
+    entries are born path-less and must nevertheless be in storage before the cursor moves past them."""
+    rng = rec.rng
+    t = rec.w.tree(side)
+    n = rng.randint(2, 4)
+    made = 0
+    if rng.random() < 0.6:
+        cands = [("" if par == "" else par) + "/" + nm for par in [""] + [d for d, v in t.items() if v[0] == "d" and d.count("/") < 2]
+                 for nm in NAMES + ["docs"] if (par + "/" + nm) not in t]
+        if cands:
+            folder = rng.choice(cands)
+            if rec.user(side, "mkdir", folder):
+                made += 1
+                names = list(NAMES)
+                rng.shuffle(names)
+                for nm in names[:n - 1]:
+                    if rec.user(side, "create", folder + "/" + nm, tag=rec.fresh()):
+                        made += 1
+    while made < n:
+        if not rec.random_op(side, kinds=["create", "create", "create", "mkdir"]):
+            break
+        made += 1
+    return made
+
 
 
 def name_reused(ops):
@@ -480,6 +531,8 @@ def excluded_shape(spec, ops):
        canonically: `rec.spell_roots = False` in `program`; the third, equal-content-delete-reads-as-rename-stuck-after-crash, by
        CRecorder.user never repeating a content at a different path when a side is path-id; the fourth,
        stale-path-create-duplicated-after-crash, by the interleaved one-sided family having no renames: FILE_KINDS)"""
+    if "stale-storage-id-deletes-reused-row" in load_known_findings(PID)[1]:
+        return False      # listed as fixed: the shape is back in the generator (and the replay must keep passing)
     return spec["storage"] == "sqlite" and "path" in spec["flavour"] and name_reused(ops)
 
 
@@ -514,13 +567,21 @@ def program(rec, spec):
         for _ in range(n):
             rec.random_op(rng.randint(0, 1), kinds=["create", "write", "write", "delete", "create"])
             rec.interleave(2)
+    elif fam == "burst":
+        side = spec["burst_side"]
+        for _ in range(rng.randint(1, 2)):
+            burst(rec, side)
+            # the batch is taken in, then two sync steps (every write of these steps is a crash point), then quiescence
+            for x in ("LR"[side], "S", "S"):
+                rec.engine(x)
+            rec.quiesce()
     else:
         raise HarnessError("unknown family " + fam)
     rec.quiesce()
 
 
 def spec_rng(spec, seed):
-    return random.Random((seed * 1000003) ^ hash_str("c07|%s|%s|%s|%s" % (spec["family"], spec["flavour"], spec["storage"], spec["salt"])))
+    return random.Random((seed * 1000003) ^ hash_str("c07|%s|%s|%s|%s|%s" % (spec["family"], spec["flavour"], spec["storage"], spec["salt"], spec.get("burst_side", ""))))
 
 
 JUNK_ROW = b"\xc1 torn row"      # 0xc1 is never valid msgpack
@@ -804,22 +865,22 @@ KNOWN = {
          "recovery_order": "LRS"},
         ["U0:create:/b.txt:1", "U0:mkdir:/d", "U0:create:/d/a.txt:2"] + list("LRS" * 8) + ["U0:delete:/b.txt"] + list("LRS" * 6)
         + ["U0:rename:/d/a.txt,/b.txt", "L", "R", "S"],
-        ("s", 39)),
+        ("s", "delete state")),          # was storage write #39 on the tree it was found on
     "ci-root-spelling-stuck-after-crash": (
         {"family": "replay", "flavour": "oidci-oidcs", "storage": "mock", "salt": "known2", "odd": False, "keep_temp": False,
          "recovery_order": "SLR"},
         ["U0:mkdir:/b@/local", "U0:create:/b/d:3@/LOCAL", "U0:create:/b/c.txt:1@/Local", "L"],
-        ("s", 9)),
+        ("s", "update cursor")),         # was storage write #9
     "equal-content-delete-reads-as-rename-stuck-after-crash": (
         {"family": "replay", "flavour": "path-oidf", "storage": "mock", "salt": "known3", "odd": False, "keep_temp": False,
          "recovery_order": "LRS"},
         ["U1:create:/b:5"] + list("LRS" * 6) + ["U0:create:/c.txt:5", "U0:delete:/b", "L", "R", "U1:write:/b:1"] + list("SLR" * 8),
-        ("p", 2)),
+        ("p", "L:upload")),              # was engine provider write #2
     "stale-path-create-duplicated-after-crash": (
         {"family": "replay", "flavour": "oid-oid", "storage": "mock", "salt": "known4", "odd": False, "keep_temp": True,
          "recovery_order": "LRS"},
         ["U0:mkdir:/b"] + list("LRS" * 4) + ["U0:create:/b/b:1", "U0:create:/b/x:2", "U0:write:/b/b:3", "L", "S", "U0:rename:/b/b,/b/a", "S"],
-        ("p", 3)),
+        ("p", "R:create")),              # was engine provider write #3
 }
 
 
@@ -853,11 +914,18 @@ def summary(out, seed, extra=None):
 
 def case_specs(tier, seed):
     """the runs of one invocation: families x flavours x storage backends rotate with the seed; every run is then repeated once
-    per crash point"""
-    n = 24 if tier == "quick" else 400
+    per crash point.  Two runs in five are creation bursts on an id-style side (quick: every (flavour, id-style side) pair once)."""
+    n = 30 if tier == "quick" else 560
     fams = ["settled", "onesided-settled", "conflict", "onesided", "settled", "onesided-settled", "conflict", "onesided", "settled", "onesided-settled"]
     out = []
+    nb = 0
     for i in range(n):
+        if i % 5 in (1, 3):
+            fl, side = ID_SIDES[(nb + seed) % len(ID_SIDES)]
+            nb += 1
+            out.append({"family": "burst", "flavour": fl, "burst_side": side, "storage": "sqlite" if (nb + seed // 2) % 2 else "mock",
+                        "salt": "b%d" % i, "keep_temp": (nb // 2) % 2 == 0, "hashmix": nb % 3 == 0})
+            continue
         fam = fams[(i + seed) % len(fams)]
         if fam == "onesided":
             fl = OID_LOCAL[(i // 4 + seed) % 2]
@@ -907,7 +975,7 @@ def run(res, tier, seed, proof_broken, replay):
         return replay_file(res, replay)
 
     # (2) known findings, exactly
-    replay_known(res, opens)
+    replay_known(res, opens, fixed)
 
     # (3a) decision-logic tie
     t_lines, t_reals, t_descs = tie_decision_tables()
@@ -991,6 +1059,7 @@ def run(res, tier, seed, proof_broken, replay):
         "the generator is restricted to families/flavours on which the pinned engine was measured reliable under crashes; excluded shapes are the listed known findings",
         "the Lean theorems are about the effect-log checker and the decision-logic model; recovery to convergence is observed per crash run (partial), judged by the Lean monitor `recovered`",
     ]
+    rejects.sort(key=lambda r: 0 if r[0][0].startswith("verdict") else 1)      # a failed recovery is the most telling replay
     for m, v, l in rejects[:4]:
         o = m[1]
         res.violation(summary(o, seed, {"obligation": m[0], "monitor_verdict": v, "monitor_line": l[:4000]}))
@@ -1031,18 +1100,50 @@ def decision_oracle(descs, lines, reals):
     return None
 
 
-def replay_known(res, opens):
-    for ident, what in opens.items():
-        if ident not in KNOWN or KNOWN[ident][1] is None:
+def known_replay(ident):
+    """replays one known finding.  Its crash instant is given by DESCRIPTION (kind of write) and resolved against the crash-free run of
+    the same trace, because write numbers shift whenever unrelated code adds or removes a storage write; every write of that kind in
+    the trace is tried.  Returns (failing runs, passing runs, crash-free run)."""
+    spec, trace, (kind, desc) = KNOWN[ident]
+    base = run_once(spec, 0, prog=trace_program(trace, tail=""))
+    bad, good = [], []
+    for (k_kind, k, pos, d, clean) in base["points"]:
+        if k_kind != kind or d != desc:
+            continue
+        o = run_once(spec, 0, crash_at=(kind, k), prog=trace_program(trace, tail=""))
+        if o["crashed"] and (not o["quiet"] or verdict_py(o) != "ok"):
+            bad.append(o)
+        elif o["crashed"]:
+            good.append(o)
+    return bad, good, base
+
+
+def replay_known(res, opens, fixed=None):
+    """exact replays on the real engine, on every run: an `open:` finding must still fail (else it is reported STALE in the
+    evidence, never as a violation); a `fixed:` finding must pass (else VIOLATION: regression of a fixed finding)."""
+    fixed = fixed or {}
+    status = {}
+    for ident in list(opens) + [i for i in fixed if i not in opens]:
+        if ident not in KNOWN:
             res.notes.append("known finding %s has no replay in this harness" % ident)
             continue
-        spec, trace, crash_at = KNOWN[ident]
-        o = run_once(spec, 0, crash_at=crash_at, prog=trace_program(trace, tail=""))
-        bad = o["crashed"] and (not o["quiet"] or verdict_py(o) != "ok")
-        if bad:
-            res.known.append("id=%s :: %s" % (ident, what))
+        bad, good, base = known_replay(ident)
+        if ident in opens:
+            if bad:
+                res.known.append("id=%s :: %s" % (ident, opens[ident]))
+                status[ident] = "open, reproduces (%s)" % bad[0]["crash_desc"].split(":")[0]
+            else:
+                res.notes.append("known finding %s no longer reproduces (stale): move it to a `fixed:` line" % ident)
+                status[ident] = "open, STALE (no longer reproduces; %d crash instants tried)" % len(good)
         else:
-            res.notes.append("known finding %s no longer reproduces (stale)" % ident)
+            if bad or not good:
+                o = bad[0] if bad else base
+                res.violation(summary(o, 0, {"kind": "regression of fixed finding", "id": ident, "what": fixed[ident], "trace": KNOWN[ident][1],
+                                             "failure": "the replay of a fixed finding fails again" if bad else "the replay no longer reaches any crash instant of the recorded kind"}))
+                status[ident] = "fixed, REGRESSED"
+            else:
+                status[ident] = "fixed, replay passes (%d crash instants)" % len(good)
+    res.coverage["known_findings_replayed"] = status
 
 
 def replay_file(res, path):
